@@ -317,9 +317,13 @@ def units(tier, seed):
   b = bounds(tier)
   names = list(PROGRAMS)
   cap = b['occurrence_cap']
-  names = [n for n in names if n not in SMALL and n not in SEQUENTIAL_ONLY]
+  names = [n for n in names if n not in SMALL and n not in SEQUENTIAL_ONLY
+           and n != 'dump_json_fn']
   out = [('combo', list(c), b['pair_bound'], cap)
          for c in itertools.combinations_with_replacement(names, 2)]
+  # the second serializing program only meets the serializing programs
+  out += [('combo', ['dump_json', 'dump_json_fn'], b['pair_bound'], cap),
+          ('combo', ['dump_json_fn', 'dump_json_fn'], b['pair_bound'], cap)]
   # small programs: two preemptions, every dynamic occurrence, also in quick
   out += [('combo', list(c), 2, None)
           for c in itertools.combinations_with_replacement(SMALL, 2)]
@@ -330,7 +334,8 @@ def units(tier, seed):
   out += [('lifetimes', k) for k in range(4)]
   # long explorations first
   out.sort(key=lambda u: 0 if u[0] == 'lifetimes' else -(
-      len(u[1]) * 10 + u[2] * 5 + ('dump_json' in u[1]) * 3))
+      len(u[1]) * 10 + u[2] * 5 + sum(
+          20 for n_ in u[1] if n_.startswith('dump_json'))))
   return out
 
 
